@@ -82,9 +82,19 @@ def run_case(case, name):
 
     ck = case["clock"]
 
+    TINY_NEG = {"tinyneg1": -1e-15, "tinyneg2": -5e-324, "tinyneg3": -2.0 ** -60}
+
     def to_time(q):
         if q == "nan":
             return Duration(float("nan")) if ck in ("dur", "durmin") else float("nan")
+        if q in TINY_NEG:       # a negative delay far below half an ulp of any clock > 0 (float / Duration clocks only)
+            assert ck != "int", q
+            return Duration(TINY_NEG[q], "s") if ck in ("dur", "durmin") else TINY_NEG[q]
+        if q == "tinypast":     # an absolute time a few ulps before the current clock
+            assert ck != "int", q
+            now = float(sim.simulator_time)
+            t = now - max(1e-13, 4 * math.ulp(now))
+            return Duration(t, "s") if ck in ("dur", "durmin") else t
         if ck == "int":
             assert q % 4 == 0, q
             return q // 4
